@@ -81,6 +81,9 @@ pub struct Case {
     pub batch: Vec<MsgSpec>,
     pub perturb: Perturb,
     pub via_validate_proof: bool,
+    /// bitmask over the submitted batch: these messages were honestly approved in an earlier call
+    #[serde(default)]
+    pub pre_approved: u8,
 }
 
 fn msgspec() -> impl Strategy<Value = MsgSpec> {
@@ -151,7 +154,7 @@ impl Property for C01 {
         "C01"
     }
     fn rule(&self) -> &'static str {
-        "proptest single cases: gateway config (domain, retention 0-3 or u64::MAX(-1), 1-3 initial sets, 0-4 honest rotations), signer sets of 1-8 keys with weights from {1, small, 2^64, u128::MAX - rest} and thresholds from {1, total, total-1, subset sums}, a signing subset (full / exactly the threshold subset / one short / random bitmask / prefix), a batch of 1-4 messages, and at most one perturbation (digest component, per-signature corruption, declared-set tampering with or without re-signing, batch substitution, never-installed set); both validate_proof and approve_messages. Oracle: digest = own keccak(domain || keccak(ownXDR(set)) || keccak(ownXDR((kind,batch)))), acceptance = set installed and within retention and weight of verify_strict-valid signatures >= threshold. non-trivial = perturbation present, or signing subset not a prefix, or signed weight == threshold exactly; distinct by Debug hash"
+        "proptest single cases: gateway config (domain, retention 0-3 or u64::MAX(-1), 1-3 initial sets, 0-4 honest rotations), signer sets of 1-8 keys with weights from {1, small, 2^64, u128::MAX - rest} and thresholds from {1, total, total-1, subset sums}, a signing subset (full / exactly the threshold subset / one short / random bitmask / prefix), a batch of 1-4 messages of which any subset may have been honestly approved in an earlier call, and at most one perturbation (digest component, per-signature corruption, declared-set tampering with or without re-signing, batch substitution, never-installed set); both validate_proof and approve_messages. Oracle: digest = own keccak(domain || keccak(ownXDR(set)) || keccak(ownXDR((kind,batch)))), acceptance = set installed and within retention and weight of verify_strict-valid signatures >= threshold. non-trivial = perturbation present, or signing subset not a prefix, or signed weight == threshold exactly; distinct by Debug hash"
     }
     fn assumptions(&self) -> Vec<&'static str> {
         vec!["a proof whose valid signatures already reach the threshold but which also carries an invalid signature is unconstrained by the statement (Either)"]
@@ -162,9 +165,9 @@ impl Property for C01 {
     fn strategy(&self, _tier: Tier) -> BoxedStrategy<Case> {
         (
             (any::<u8>(), 0u8..6, proptest::collection::vec(setgen(8), 1..4), proptest::collection::vec(setgen(8), 0..5)),
-            (prop_oneof![3 => Just(0u16), 2 => any::<u16>()], maskkind(), proptest::collection::vec(msgspec(), 1..5), perturb(), any::<bool>()),
+            (prop_oneof![3 => Just(0u16), 2 => any::<u16>()], maskkind(), proptest::collection::vec(msgspec(), 1..5), perturb(), any::<bool>(), prop_oneof![3 => Just(0u8), 1 => Just(0xffu8), 1 => any::<u8>()]),
         )
-            .prop_map(|((domain, retention, initial, rotations), (prover, mask, batch, perturb, via))| Case {
+            .prop_map(|((domain, retention, initial, rotations), (prover, mask, batch, perturb, via, pre_approved))| Case {
                 domain,
                 retention,
                 initial,
@@ -174,6 +177,7 @@ impl Property for C01 {
                 batch,
                 perturb,
                 via_validate_proof: via,
+                pre_approved,
             })
             .boxed()
     }
@@ -404,6 +408,30 @@ impl Property for C01 {
             cx.label("huge_weights");
         }
 
+        // ---------------- earlier honest approvals of some of the submitted ids (by the latest set)
+        let mut already: Vec<bool> = vec![false; sub.msgs.len()];
+        if !case.via_validate_proof && case.pre_approved != 0 {
+            let latest = sets.last().unwrap();
+            let mut pre: Vec<Message> = vec![];
+            for (i, m) in sub.msgs.iter().enumerate() {
+                if case.pre_approved >> (i % 8) & 1 == 1 {
+                    already[i] = true;
+                    pre.push(Message {
+                        source_chain: sstr_bytes(&env, &m.0),
+                        message_id: sstr_bytes(&env, &m.1),
+                        source_address: sstr_bytes(&env, &m.2),
+                        contract_address: dests[m.3 as usize].clone(),
+                        payload_hash: BytesN::from_array(&env, &m.4),
+                    });
+                }
+            }
+            if !pre.is_empty() {
+                gw.approve(&env, latest, &pre).map_err(|e| format!("setup: earlier honest approval refused: {}", e))?;
+                cx.label(if already.iter().all(|x| *x) { "whole_batch_already_approved" } else { "part_of_batch_already_approved" });
+                cx.nontrivial();
+            }
+        }
+
         // ---------------- act
         let proof = sub.proof.to_soroban(&env);
         let snap0 = snapshot(&env);
@@ -445,16 +473,19 @@ impl Property for C01 {
             let approved = |m: &Message| gw.client.is_message_approved(&m.source_chain, &m.message_id, &m.source_address, &m.contract_address, &m.payload_hash);
             if ok {
                 let evs = events_since(&env, ev0);
-                ensure_p!(evs.len() == ms.len(), "expected {} message_approved events, got {}", ms.len(), evs.len());
-                for (e, m) in evs.iter().zip(ms.iter()) {
-                    ensure_p!(e.0 == gw.id && e.1.len() == 2 && e.1[0] == sym("message_approved") && e.1[1] == scv(&env, m.clone()), "message_approved event does not name the approved message: {:?}", e);
+                let fresh: Vec<&Message> = ms.iter().enumerate().filter(|(i, _)| !already[*i]).map(|(_, m)| m).collect();
+                ensure_p!(evs.len() == fresh.len(), "expected {} message_approved events (ids not approved before), got {}", fresh.len(), evs.len());
+                for (e, m) in evs.iter().zip(fresh.iter()) {
+                    ensure_p!(e.0 == gw.id && e.1.len() == 2 && e.1[0] == sym("message_approved") && e.1[1] == scv(&env, (*m).clone()), "message_approved event does not name the approved message: {:?}", e);
+                }
+                for m in &ms {
                     ensure_p!(approved(m), "approved batch member is not reported approved");
                 }
             } else {
                 ensure_p!(snapshot(&env) == snap0, "rejected approval changed the ledger");
                 ensure_p!(events_len(&env) == ev0, "rejected approval emitted events");
-                for m in &ms {
-                    ensure_p!(!approved(m), "message of a rejected batch is reported approved");
+                for (i, m) in ms.iter().enumerate() {
+                    ensure_p!(approved(m) == already[i], "approval status of a batch member changed by a rejected submission");
                 }
             }
         }
